@@ -23,7 +23,7 @@ DEFAULT_GROUP = {'bin': 8, 'hex': 8, 'oct': 12}
 
 def describe(tier):
     q = tier == 'quick'
-    return dict(bounds=dict(str_repr='all contents of length <= %d; every length 0..70 and 990..1010 and 4*MAX_CHARS-4..4*MAX_CHARS+4 from the pattern family; 4 classes x pos {0, mid, L} x lsb0' % (8 if q else 10),
+    return dict(bounds=dict(str_repr='all contents of length <= %d; every length 0..70 and 990..1010 and 4*MAX_CHARS-4..4*MAX_CHARS+4 from the pattern family; 4 classes x pos {0, mid, L} x lsb0' % (8 if q else 12),
                             pp_formats='None, bin, hex, oct, all ordered pairs; group sizes 3, 8, 12, 6, 24, 0 (ungrouped)', pp_widths='every width 0..%d on short data, step 7 to 200 on long data' % (80 if q else 200),
                             pp_sep=[' ', '', '|', '  '], show_offset=[True, False], modes='lsb0 x no_color', array='every C14 dtype with finite items'),
                 rule='each (content, event) executed once; non-trivial = pp succeeds (the format can represent the length) / the value is not truncated',
@@ -34,7 +34,7 @@ def describe(tier):
 def shards(tier, seed):
     q = tier == 'quick'
     out = []
-    conts = list(families.all_bits(8 if q else 10))
+    conts = list(families.all_bits(8 if q else 12))
     for part in families.chunk(conts, 16):
         out.append(dict(kind='str', conts=part))
     lens = list(range(0, 71)) + list(range(990, 1011)) + [996, 1000, 1001, 1003, 1004, 2000, 4001]
